@@ -481,6 +481,20 @@ def main_check(prop, tier, only_lanes=None, keep=False):
     extra_viols, extra_cov = plan.post_process(prop, tier, results, agg, rundir)
     all_viols.extend(extra_viols)
 
+    # offline re-check of the recorded event log with the independent Python model
+    if P.get("logcheck"):
+        try:
+            lp = subprocess.run([sys.executable, os.path.join(VERIF, "run", "logcheck.py"), rundir],
+                                stdout=subprocess.PIPE, stderr=subprocess.PIPE, text=True, timeout=600)
+            lc = json.loads(lp.stdout.strip().splitlines()[-1])
+            extra_cov["oracle_selfcheck"] = dict(events_rechecked=lc["rechecked"], cases_with_dumped_input=lc["cases_with_input"],
+                                                 by_op=lc["by_op"], disagreements=lc["n_disagreements"])
+            if lc["n_disagreements"]:
+                log("[logcheck] the Rust oracle accepted answers the independent Python model rejects: " + json.dumps(lc["disagreements"][:3]))
+                inconclusive.append("oracle self-check (run/logcheck.py) found disagreements between the Rust oracle and the Python model")
+        except Exception as ex:  # noqa: BLE001
+            extra_cov["oracle_selfcheck"] = dict(error=str(ex))
+
     # tags of deaths: inherit from the notes of the case (a died case cannot tag itself)
     for v in all_viols:
         if v["kind"].startswith("died:") and v.get("notes"):
